@@ -606,6 +606,17 @@ fn read_payload_size(buffer: &[u8]) -> Result<(usize, usize), ReadError> {
     }
 }
 
+/// Verification hook: `read_payload_size` on the length bytes read so far; the error is
+/// `0` = not enough bytes, `1` = overflow, `2` = decode error.
+#[cfg(feature = "verif")]
+pub fn verif_read_payload_size(buffer: &[u8]) -> Result<(usize, usize), u8> {
+    read_payload_size(buffer).map_err(|error| match error {
+        ReadError::NotEnoughBytes => 0,
+        ReadError::Overflow => 1,
+        ReadError::DecodeError => 2,
+    })
+}
+
 impl Stream for Substream {
     type Item = Result<BytesMut, SubstreamError>;
 
